@@ -92,6 +92,7 @@ class ModuleModel:
         self.table_sites = {}       # table name -> list of (kind, node) for function-level mutation sites
         self.values = {}            # lazily evaluated module-level names
         self.attr_mutations = set()
+        self.attr_store_bases = set()   # module-level names X with `X.attr = ...` somewhere (classes / objects changed at run time)
         self.busy = set()
         self._scan()
 
@@ -160,6 +161,10 @@ class ModuleModel:
                     elif isinstance(n, ast.AugAssign) and isinstance(n.target, ast.Name):
                         self.module_sites.setdefault(n.target.id, []).append(n)
         module_effects(tree.body)
+        for n in ast.walk(tree):
+            if isinstance(n, ast.Attribute) and isinstance(n.ctx, (ast.Store, ast.Del)) and isinstance(n.value, ast.Name) \
+                    and self.bind_count.get(n.value.id, 0) > 0 and not self._shadowed(n, n.value.id):
+                self.attr_store_bases.add(n.value.id)
         # function-level effects on module names
         for fn in ast.walk(tree):
             if not isinstance(fn, (ast.FunctionDef, ast.AsyncFunctionDef, ast.Lambda)):
